@@ -563,7 +563,20 @@ def gen_C06(r):
             for sc in lst:
                 if sc["end"] != ["exit", 0] and r.random() < 0.6:
                     sc["steps"] = [["nop"]] * r.choice([3, 10, 30, 60])
-                sc["steps"] = list(sc["steps"]) + [["file", "res.csv", {"k": "bin", "n": 50, "seed": r.randrange(1 << 30)}]]
+                sc["steps"] = list(sc["steps"]) + [["file", r.choice(["res.csv", "sub.task.7/inner.txt"]),
+                                                    {"k": "bin", "n": 50, "seed": r.randrange(1 << 30)}]]
+        exps_ = [t for t, d in scn["tasks"].items() if d["kind"] == "exp"]
+        for t in exps_:
+            if r.random() < 0.6:
+                scn["tasks"][t]["options"] = {"k": r.randrange(5)}
+        if exps_ and r.random() < 0.35:
+            # a task that gets in the way of Conductor's own record: a directory where options.json belongs
+            # (writing the record fails with an OSError after the task has exited 0)
+            t = r.choice(exps_)
+            scn["tasks"][t]["options"] = {"k": 1}
+            for sc in op["scripts"].get(t, []):
+                if sc["end"] == ["exit", 0]:
+                    sc["steps"] = [["mkdir", "options.json"]] + list(sc["steps"])
         scn["knobs"]["mon"] = True
         scn["knobs"]["cpu_count"] = 2
         scn["history"].append({"op": "run", "target": op["target"], "flags": {"jobs": 2}, "cwd": "", "gap": 2.0, "scripts": {}})
@@ -772,6 +785,8 @@ def gen_C16(r):
     if r.random() < 0.3:
         # an impatient second Ctrl-C / a batch system repeating its SIGTERM
         op["second_signal"] = "s%d" % r.randrange(10**6)
+    if r.random() < 0.15:
+        op["flags"]["debug"] = True        # cond --debug run ...
     ops.append(op)
     scn["history"] = ops
     scn["enum"] = {"step": len(ops) - 1, "budget": 120 if _tier() == "quick" else 6000}
